@@ -417,3 +417,11 @@ def rule_commit(ctx):
 
 
 RULES.append(("C06.k", "branch-commit: between the decision to perform an effect and the effect there is no way out", rule_commit))
+
+
+def rule_deps(ctx):
+    from . import c16
+    c16.rule_c(ctx)
+
+
+RULES.append(("C06.l", "sub-models are registered under parent.child (C16.c): the names listed in a Deadlock report are the qualified ones", rule_deps))
